@@ -144,7 +144,7 @@ def run_tlc(module: str, cfg_text: str, *, workers=16, env=None, timeout=900, co
     res.out = out if isinstance(out, str) else out.decode("utf-8", "replace")
   res.wall = time.time() - t0
   _parse_output(res)
-  if not res.timed_out and (res.rc < 0 or res.rc >= 128 or "java.lang.OutOfMemoryError" in res.out):
+  if not res.timed_out and (res.rc < 0 or res.rc in (134, 137, 139, 143) or "java.lang.OutOfMemoryError" in res.out):
     # the JVM was killed (kernel OOM killer under load, or its heap was exhausted): whatever it printed or dumped is
     # incomplete and must never be read as a result.  One retry, then a machinery failure.
     if not _retry:
